@@ -134,15 +134,25 @@ class LineObserver:
 
 class SimFile(io.BytesIO):
     """Write side of a simulated file.  `fail_at` = index of the write() call
-    that raises ENOSPC (None: never)."""
+    that raises ENOSPC (None: never).  When `commit_on_close` is set (files the
+    library opens itself through the injected open()), closing makes the bytes
+    written so far durable - exactly what closing a real file does."""
 
-    def __init__(self, fs, path, fail_at=None):
+    def __init__(self, fs, path, fail_at=None, commit_on_close=False):
         super().__init__()
         self.fs = fs
         self.path = path
         self.fail_at = fail_at
         self.nwrites = 0
         self.failed = False
+        self.commit_on_close = commit_on_close
+        self._committed = False
+
+    def close(self):
+        if self.commit_on_close and not self._committed:
+            self._committed = True
+            self.fs.commit(self)
+        super().close()
 
     def write(self, b):
         i = self.nwrites
@@ -225,21 +235,93 @@ class StorageProxy:
         return torch.load(f, *a, **k)
 
 
-class Storage:
-    """Context manager installing the proxy into torchtt._extras."""
+class OsProxy:
+    """Stands in for the name `os` inside torchtt._extras (should the module use it): renames and removals of
+    simulated files are applied to the SimFS and to its write-through copies; everything else is the real os."""
 
     def __init__(self, fs):
+        object.__setattr__(self, '_fs', fs)
+
+    def __getattr__(self, name):
+        return getattr(os, name)
+
+    def _mv(self, src, dst):
+        src, dst = str(src), str(dst)
+        fs = self._fs
+        fs.stats['probe.os_rename_seen'] = fs.stats.get('probe.os_rename_seen', 0) + 1
+        if src in fs.files:
+            fs.files[dst] = fs.files.pop(src)
+        if os.path.exists(src):
+            os.replace(src, dst)
+        elif src not in fs.files and dst not in fs.files:
+            raise FileNotFoundError(errno.ENOENT, 'No such file (simulated)', src)
+
+    def replace(self, src, dst, *a, **k):
+        return self._mv(src, dst)
+
+    def rename(self, src, dst, *a, **k):
+        return self._mv(src, dst)
+
+    def remove(self, path, *a, **k):
+        path = str(path)
+        fs = self._fs
+        fs.stats['probe.os_remove_seen'] = fs.stats.get('probe.os_remove_seen', 0) + 1
+        had = fs.files.pop(path, None) is not None
+        if os.path.exists(path):
+            os.remove(path)
+        elif not had:
+            raise FileNotFoundError(errno.ENOENT, 'No such file (simulated)', path)
+
+    unlink = remove
+
+
+class Storage:
+    """Context manager installing the storage seam into torchtt._extras: the name `tn` (torch.save / torch.load with
+    string paths), and - for code that opens or renames files itself - the names `open` and `os`."""
+
+    def __init__(self, fs, root=None):
         self.fs = fs
+        self.root = root
 
     def __enter__(self):
+        import builtins
         import torchtt._extras as ex
         self._ex = ex
         self._old = ex.tn
         ex.tn = StorageProxy(self.fs)
+        fs = self.fs
+        root = self.root
+
+        def sim_open(path, mode='r', *a, **k):
+            p = str(path) if isinstance(path, (str, os.PathLike)) else None
+            if p is not None and root and p.startswith(root) and any(c in mode for c in 'wax+'):
+                fs.stats['probe.open_for_write_seen'] = fs.stats.get('probe.open_for_write_seen', 0) + 1
+                f = SimFile(fs, p, fs.next_fail, commit_on_close=True)
+                fs.next_fail = None
+                if 'a' in mode and p in fs.files:
+                    io.BytesIO.write(f, fs.files[p])
+                return f
+            return builtins.open(path, mode, *a, **k)
+
+        self._had_open = 'open' in ex.__dict__
+        self._old_open = ex.__dict__.get('open')
+        ex.open = sim_open
+        self._had_os = 'os' in ex.__dict__
+        self._old_os = ex.__dict__.get('os')
+        ex.os = OsProxy(fs)
         return self.fs
 
     def __exit__(self, *exc):
-        self._ex.tn = self._old
+        ex = self._ex
+        ex.tn = self._old
+        if self._had_open:
+            ex.open = self._old_open
+        else:
+            del ex.open
+        if self._had_os:
+            ex.os = self._old_os
+        else:
+            del ex.os
         return False
 
 
